@@ -8,7 +8,7 @@ from hypothesis import strategies as st
 
 from pbt import models_v2 as M
 from pbt import trees as T
-from pbt.runtime import Ctx, Labels, Part, require
+from pbt.runtime import Ctx, FalsyCallable, Labels, Part, require
 
 PROP = "C05"
 RULE = (
@@ -135,6 +135,8 @@ def check_tree(data: dict, lab: Labels) -> None:
             require(k in cidx, "filter-offered-unknown-position", k)
             return bool(_fm >> cidx[k] & 1)
 
+        # every third pair passes the predicates as falsy callables
+        P_, F_ = (FalsyCallable(prune_l), FalsyCallable(flt_l)) if (pm + fm) % 3 == 0 else (prune_l, flt_l)
         exp_pre: list = []
         offered: list = []
         ref_pre(root_e, prune_e, flt_e, exp_pre, offered)
@@ -142,9 +144,9 @@ def check_tree(data: dict, lab: Labels) -> None:
         ref_post(root_e, prune_e, flt_e, exp_post)
         exp_bfs = ref_bfs(root_e, prune_e, flt_e)
         for name, exp, it in (
-            ("dfs", exp_pre, lambda: root.dfs(prune=prune_l, filter=flt_l)),
-            ("dfs-bottom-up", exp_post, lambda: root.dfs(prune=prune_l, filter=flt_l, bottom_up=True)),
-            ("bfs", exp_bfs, lambda: root.bfs(prune=prune_l, filter=flt_l)),
+            ("dfs", exp_pre, lambda: root.dfs(prune=P_, filter=F_)),
+            ("dfs-bottom-up", exp_post, lambda: root.dfs(prune=P_, filter=F_, bottom_up=True)),
+            ("bfs", exp_bfs, lambda: root.bfs(prune=P_, filter=F_)),
         ):
             calls_f.clear()
             calls_p.clear()
